@@ -606,13 +606,11 @@ def zenith_and_azimuth(
     )
     #    in minutes as a float, fractional part is seconds
 
-    while trueSolarTime > 1440:
-        trueSolarTime = trueSolarTime - 1440
+    # bring the true solar time into [0, 1440) so that the hour angle is in
+    # [-180, 180) whatever the zone of dateandtime
+    trueSolarTime = trueSolarTime % 1440
 
     hourangle = trueSolarTime / 4.0 - 180.0
-    #    Thanks to Louis Schwarzmayr for the next line:
-    if hourangle < -180:
-        hourangle = hourangle + 360.0
 
     ch = cos(radians(hourangle))
     # sh = sin(radians(hourangle))
